@@ -20,8 +20,26 @@ pub struct HashMap<K, V, S = ()> {
 impl<K, V, S> Default for HashMap<K, V, S> {
     fn default() -> Self { HashMap { slots: ManuallyDrop::new([None, None, None, None, None, None]), _s: PhantomData } }
 }
-impl<K: Eq, V, S> HashMap<K, V, S> {
+impl<K, V, S> HashMap<K, V, S> {
+    // no trait bounds on constructors and size accessors, as in std
     pub fn with_hasher(_s: S) -> Self { Self::default() }
+    pub fn with_capacity_and_hasher(_c: usize, _s: S) -> Self { Self::default() }
+    pub fn len(&self) -> usize {
+        let mut n = 0;
+        let mut i = 0;
+        while i < MAP_CAP { if self.slots[i].is_some() { n += 1; } i += 1; }
+        n
+    }
+    pub fn is_empty(&self) -> bool { self.len() == 0 }
+    pub fn capacity(&self) -> usize { MAP_CAP }
+    pub fn iter(&self) -> impl Iterator<Item = (&K, &V)> { self.slots.iter().filter_map(|s| s.as_ref().map(|kv| (&kv.0, &kv.1))) }
+    pub fn keys(&self) -> impl Iterator<Item = &K> { self.slots.iter().filter_map(|s| s.as_ref().map(|kv| &kv.0)) }
+    pub fn values(&self) -> impl Iterator<Item = &V> { self.slots.iter().filter_map(|s| s.as_ref().map(|kv| &kv.1)) }
+    pub fn values_mut(&mut self) -> impl Iterator<Item = &mut V> { self.slots.iter_mut().filter_map(|s| s.as_mut().map(|kv| &mut kv.1)) }
+    pub fn drain(&mut self) -> impl Iterator<Item = (K, V)> + '_ { self.slots.iter_mut().filter_map(|s| s.take()) }
+    pub fn clear(&mut self) { let mut i = 0; while i < MAP_CAP { self.slots[i] = None; i += 1; } }
+}
+impl<K: Eq, V, S> HashMap<K, V, S> {
     fn pos<Q: ?Sized + Eq>(&self, k: &Q) -> Option<usize> where K: Borrow<Q> {
         let mut i = 0;
         while i < MAP_CAP {
@@ -51,20 +69,7 @@ impl<K: Eq, V, S> HashMap<K, V, S> {
     pub fn remove<Q: ?Sized + Eq>(&mut self, k: &Q) -> Option<V> where K: Borrow<Q> {
         match self.pos(k) { Some(i) => self.slots[i].take().map(|kv| kv.1), None => None }
     }
-    pub fn len(&self) -> usize {
-        let mut n = 0;
-        let mut i = 0;
-        while i < MAP_CAP { if self.slots[i].is_some() { n += 1; } i += 1; }
-        n
-    }
-    pub fn is_empty(&self) -> bool { self.len() == 0 }
-    pub fn capacity(&self) -> usize { MAP_CAP }
     pub fn shrink_to(&mut self, _min: usize) {}
-    pub fn iter(&self) -> impl Iterator<Item = (&K, &V)> { self.slots.iter().filter_map(|s| s.as_ref().map(|kv| (&kv.0, &kv.1))) }
-    pub fn keys(&self) -> impl Iterator<Item = &K> { self.slots.iter().filter_map(|s| s.as_ref().map(|kv| &kv.0)) }
-    pub fn values(&self) -> impl Iterator<Item = &V> { self.slots.iter().filter_map(|s| s.as_ref().map(|kv| &kv.1)) }
-    pub fn values_mut(&mut self) -> impl Iterator<Item = &mut V> { self.slots.iter_mut().filter_map(|s| s.as_mut().map(|kv| &mut kv.1)) }
-    pub fn drain(&mut self) -> impl Iterator<Item = (K, V)> + '_ { self.slots.iter_mut().filter_map(|s| s.take()) }
     pub fn entry(&mut self, k: K) -> hash_map::Entry<'_, K, V> {
         match self.pos(&k) {
             Some(idx) => hash_map::Entry::Occupied(hash_map::OccupiedEntry { slot: &mut self.slots[idx] }),
@@ -107,8 +112,20 @@ impl<T, S> Default for HashSet<T, S> {
 impl<T, S> std::fmt::Debug for HashSet<T, S> {
     fn fmt(&self, f: &mut std::fmt::Formatter<'_>) -> std::fmt::Result { f.write_str("HashSet") }
 }
-impl<T: Eq, S> HashSet<T, S> {
+impl<T, S> HashSet<T, S> {
     pub fn with_hasher(_s: S) -> Self { Self::default() }
+    pub fn with_capacity_and_hasher(_c: usize, _s: S) -> Self { Self::default() }
+    pub fn len(&self) -> usize {
+        let mut n = 0;
+        let mut i = 0;
+        while i < MAP_CAP { if self.slots[i].is_some() { n += 1; } i += 1; }
+        n
+    }
+    pub fn is_empty(&self) -> bool { self.len() == 0 }
+    pub fn iter(&self) -> impl Iterator<Item = &T> { self.slots.iter().filter_map(|s| s.as_ref()) }
+    pub fn clear(&mut self) { let mut i = 0; while i < MAP_CAP { self.slots[i] = None; i += 1; } }
+}
+impl<T: Eq, S> HashSet<T, S> {
     fn pos<Q: ?Sized + Eq>(&self, k: &Q) -> Option<usize> where T: Borrow<Q> {
         let mut i = 0;
         while i < MAP_CAP {
@@ -127,14 +144,6 @@ impl<T: Eq, S> HashSet<T, S> {
     pub fn remove<Q: ?Sized + Eq>(&mut self, k: &Q) -> bool where T: Borrow<Q> {
         match self.pos(k) { Some(i) => { self.slots[i] = None; true } None => false }
     }
-    pub fn len(&self) -> usize {
-        let mut n = 0;
-        let mut i = 0;
-        while i < MAP_CAP { if self.slots[i].is_some() { n += 1; } i += 1; }
-        n
-    }
-    pub fn is_empty(&self) -> bool { self.len() == 0 }
-    pub fn iter(&self) -> impl Iterator<Item = &T> { self.slots.iter().filter_map(|s| s.as_ref()) }
 }
 pub mod hash_set {
     pub struct IntoIter<T> { pub(super) slots: [Option<T>; super::MAP_CAP], pub(super) next: usize }
